@@ -70,10 +70,10 @@ def _rx(left, right):
 def variants(x, mode):
     """[(variant string, description)] of reaction x, deduplicated, x itself first.
 
-    mode 'full': every permutation of each side  x  {canonical spelling, profile k for all
-                 k} where profile k writes every molecule in its k-th spelling (mod family
-                 size).
-    mode 'lite': every permutation in canonical spelling; every profile k in reversed order.
+    Profile k writes every molecule in its k-th spelling (mod family size).
+    mode 'cross': every permutation of each side  x  {canonical spelling, every profile k}.
+    mode 'perm+rev' / 'lite': every permutation in canonical spelling; every profile k with
+                 both sides in reversed order (order and spelling vary together).
     """
     left, right = [t.split(".") for t in x.split(">>")]
     kmax = max(len(family(m)) for m in left + right)
@@ -92,7 +92,7 @@ def variants(x, mode):
     for a in pl:
         for b in pr:
             add(_rx(a, b), {"perm": [list(a), list(b)], "profile": 0})
-    if mode == "full":
+    if mode == "cross":
         for a in pl:
             for b in pr:
                 for k in range(1, kmax):
@@ -142,14 +142,20 @@ def classify(x, v, nx, nv):
     return ["spelling-dependence"] + (sorted(kinds) or ["interaction"])
 
 
-def judge(x, v, methods=METHODS):
-    """All failures of the pair (reaction, variant): list of dicts"""
+def judge(x, v, methods=METHODS, nx=None):
+    """All failures of the pair (reaction, variant): list of dicts.  `nx` = normalize(x)
+    when the caller has already computed it and checked its idempotence."""
     from synrbl.SynUtils.chem_utils import normalize_smiles, wc_similarity
 
     fails = []
-    nx = normalize_smiles(x)
+    todo = []
+    if nx is None:
+        nx = normalize_smiles(x)
+        todo.append(nx)
     nv = normalize_smiles(v)
-    for s, n in ((x, nx), (v, nv)):
+    if nv != nx:
+        todo.append(nv)
+    for n in todo:
         nn = normalize_smiles(n)
         if nn != n:
             fails.append({"sub": "idempotence", "key": ["not-idempotent"], "x": x, "v": v,
@@ -204,13 +210,19 @@ def reaction_item(item):
     # lite: all three methods on the reaction itself, the first and last other permutation
     # and the last spelling profile; 'pathway' on the rest
     all_methods = set(perm_idx[:2] + perm_idx[-1:] + [len(vs) - 1])
+    from synrbl.SynUtils.chem_utils import normalize_smiles
+
+    nx = None
     for i, (v, d) in enumerate(vs):
-        methods = METHODS if mode == "full" or i in all_methods else METHODS[:1]
+        methods = METHODS if mode != "lite" or i in all_methods else METHODS[:1]
         acc.evaluations += 1
         if v != x:
             acc.nontrivial += 1
-        for f in judge(x, v, methods):
+        # the first variant is x itself: normalize(x) and its idempotence are judged there
+        for f in judge(x, v, methods, nx=nx):
             acc.fail(f)
+        if nx is None:
+            nx = normalize_smiles(x)
     return acc.result()
 
 
@@ -281,7 +293,7 @@ def run(tier, seed):
     r_mol = pmap("checks.c17:molecule_item", A17, chunk=1, seed=seed)
     parts["molecule-spellings"] = r_mol
     rx2 = universe.Rxn(A17, 2)
-    items = [(x, "full") for x in rx2]
+    items = [(x, "cross" if tier == "thorough" else "perm+rev") for x in rx2]
     n3 = 0
     if tier == "thorough":
         in2 = set(rx2)
@@ -326,13 +338,15 @@ def run(tier, seed):
         "rule": "evaluations = (reaction, variant) pairs judged (normal form, idempotence, "
                 "similarity == 1 under pathway/ecfp/ecfp_inv) + ordered pairs of the symmetry "
                 "slice. Reactions: all {} of Rxn(A17, 2) over {} molecules with every distinct "
-                "permutation of each side x every spelling profile (profile k = each molecule "
+                "permutation of each side {} every spelling profile (profile k = each molecule "
                 "in its k-th spelling of universe.spell: rooted at every atom, kekule, "
                 "explicit-H, 3 map numberings){}; every spelling of every alphabet molecule "
                 "on its own; all {}x{} ordered pairs of a fixed slice (all left multisets <= 2 "
                 "over {} x rights {}). distinct_nontrivial = distinct (reaction, variant) "
                 "pairs whose raw text differs from the reaction.".format(
                     len(rx2), len(A17),
+                    "x" if tier == "thorough" else "in canonical spelling, and with both "
+                    "sides reversed",
                     "; thorough adds the {} reactions of Rxn(A17, 3) with a side of 3: every "
                     "permutation in canonical spelling and every profile in reversed order "
                     "(all three methods on the first/last permutation, pathway on the "
